@@ -343,6 +343,20 @@ static Verdict run_c17(const Case &c)
     if (pr.status != 0 || pr.plain != in_bytes)
       return bad("the written file does not decrypt (reference, key " + std::string(key_k == "none" ? "as printed" : "as given") + ") to the input: reference status " + std::to_string(pr.status));
     v.classes.push_back("encrypt_output_verified");
+    if (c.geti("followup"))
+    {
+      // the statement's own round trip: `-d` with the key that was given / printed restores the input
+      std::string kstr = ref::b64_encode(k.data(), 16);
+      RunRes r2 = spawn(bin, {"-d", "-i", op, "-o", "roundtrip.bin", "-k", kstr}, dir);
+      if (r2.timed_out)
+        return v;
+      if (r2.signaled || r2.code != 0)
+        return bad("`-d` of the file just written with the " + std::string(key_k == "none" ? "printed" : "given") + " key failed (" + (r2.signaled ? "signal " + std::to_string(r2.sig) : "exit " + std::to_string(r2.code)) + ")");
+      std::string back = read_file(dir + "/roundtrip.bin");
+      if (bytes(back.begin(), back.end()) != in_bytes)
+        return bad("`-d` with the " + std::string(key_k == "none" ? "printed" : "given") + " key does not restore the input file");
+      v.classes.push_back("cli_roundtrip_verified");
+    }
   }
   else if (mode == 'd')
   {
@@ -435,6 +449,7 @@ static Case gen_c17()
   c.seti("tamper", g::range(0, 4));
   c.seti("pathlen", g::oneof<long>({123, 124, 130, 140, 200, 300, 1000, 3000}));
   c.seti("asan", g::coin(25) ? 1 : 0);
+  c.seti("followup", g::coin(40) ? 1 : 0);
   return c;
 }
 
@@ -457,6 +472,7 @@ static void fixed_c17(Ctx &ctx)
     c.seti("file_cmode", 1);
     c.seti("file_hmode", 0);
     c.seti("pathlen", 200);
+    c.seti("followup", 1);
     for (auto &p2 : kv)
       c.set(p2.first, p2.second);
     eval_fixed(*p, ctx, c);
